@@ -232,6 +232,8 @@ class SymEval:
                     if isinstance(cv, tuple) and cv and cv[0] == "constinit":
                         return self.ev(cv[1], Scope({}))
                     return cv
+            if last == "PhantomData":
+                return ("sym", "PhantomData")       # the zero-sized marker value
             if "::" in p and last[:1].isupper():
                 return ("enum", self.enum_name(p), [])
             if "::" in p or self.h.resolve_fn(p) is not None:
@@ -252,7 +254,9 @@ class SymEval:
             v = self.ev(e[1], env)
             r = self.h.cast(v, e[2], e)
             if r is NotImplemented and isinstance(v, int) and not isinstance(v, bool):
-                bits = {"u8": 8, "u16": 16, "u32": 32, "u64": 64, "usize": 64, "Word": 32, "spirv::Word": 32}.get(e[2].replace(" ", ""))
+                ty_ = e[2].replace(" ", "")
+                ty_ = _type_alias(ty_) or ty_
+                bits = {"u8": 8, "u16": 16, "u32": 32, "u64": 64, "usize": 64, "Word": 32, "spirv::Word": 32}.get(ty_)
                 return v & ((1 << bits) - 1) if bits else v
             if r is NotImplemented:
                 # a cast of a value the evaluator does not know numerically is kept visible: dropping it would equate `x as f32` with `x`
@@ -327,15 +331,9 @@ class SymEval:
             if r is not NotImplemented:
                 return r
             if op in ("==", "!="):
-                # a token that stands for an unknown run-time value compared with a literal: the code distinguishes a particular value
-                # the abstract input does not fix - undecided (the caller fails closed), never silently "different"
-                if (opaque(a) and isinstance(b, (int, str)) and not isinstance(b, bool)) or (opaque(b) and isinstance(a, (int, str)) and not isinstance(a, bool)) \
-                        or (opaque(a) and isinstance(b, tuple) and b and b[0] == "str") or (opaque(b) and isinstance(a, tuple) and a and a[0] == "str"):
-                    return ("cmp", op, a, b)
-                if opaque(a) and opaque(b) and a != b and not STRICT_TOKENS_DISTINCT:
-                    return ("cmp", op, a, b)        # two different unknown values may still be equal at run time
-                if self.concrete(a) and self.concrete(b):
-                    return (a == b) == (op == "==")
+                r = self.equal(a, b, e)
+                if isinstance(r, bool):
+                    return r == (op == "==")
                 return ("cmp", op, a, b)
             if op in ("<", "<=", ">", ">=") and ((opaque(a) and isinstance(b, int)) or (opaque(b) and isinstance(a, int))):
                 return ("cmp", op, a, b)
@@ -817,6 +815,36 @@ class SymEval:
                 return old
         return NotImplemented
 
+    def equal(self, a, b, e):
+        """a == b: True / False / None (undecided).  Option / Result / tuple values compare component-wise, so that the rule's own
+        notion of equality of the components (hooks.binary: e.g. a value unequal to itself) is respected inside them"""
+        r = self.h.binary("==", a, b, e)
+        if isinstance(r, bool):
+            return r
+        if self.shape(a) and self.shape(b):
+            if a[0] != b[0]:
+                return False
+            return True if a == NONE else self.equal(a[1], b[1], e)
+        if isinstance(a, tuple) and isinstance(b, tuple) and a and b and a[0] == b[0] == "tuple" and len(a[1]) == len(b[1]):
+            res = True
+            for x, y in zip(a[1], b[1]):
+                r = self.equal(x, y, e)
+                if r is False:
+                    return False
+                if r is None:
+                    res = None
+            return res
+        # a token that stands for an unknown run-time value compared with a literal: the code distinguishes a particular value
+        # the abstract input does not fix - undecided (the caller fails closed), never silently "different"
+        if (opaque(a) and isinstance(b, (int, str)) and not isinstance(b, bool)) or (opaque(b) and isinstance(a, (int, str)) and not isinstance(a, bool)) \
+                or (opaque(a) and isinstance(b, tuple) and b and b[0] == "str") or (opaque(b) and isinstance(a, tuple) and a and a[0] == "str"):
+            return None
+        if opaque(a) and opaque(b) and a != b and not STRICT_TOKENS_DISTINCT:
+            return None        # two different unknown values may still be equal at run time
+        if self.concrete(a) and self.concrete(b):
+            return a == b
+        return None
+
     def concrete(self, v):
         if isinstance(v, (int, bool)):
             return True
@@ -1050,6 +1078,14 @@ class SymEval:
                     else:
                         self.fail("filter_map closure of unknown result shape", e)
                 return ("list", out_)
+            if m in ("rposition", "rfind") and len(args) == 1:
+                for i in range(len(items) - 1, -1, -1):
+                    t = self.apply(args[0], [items[i]])
+                    if not isinstance(t, bool):
+                        self.fail("undecided predicate in %s: %r" % (m, t), e)
+                    if t:
+                        return ("some", i if m == "rposition" else items[i])
+                return NONE
             if m in ("find", "position", "any", "all", "find_map", "filter") and len(args) == 1:
                 res = []
                 for i, x in enumerate(items):
@@ -1690,6 +1726,24 @@ def _const_items(ctx):
                 if it.get("kind") in ("const", "static") and it.get("init") is not None and it.get("name") not in (None, "_"):
                     out.setdefault(it["name"], []).append(it)
     return out
+
+
+def _type_alias(name):
+    """target of a `type Name = ..;` alias of the analysed crates when the name has one target (None: unknown)"""
+    ctx = DEFAULT_CTX
+    if ctx is None:
+        return None
+
+    def build():
+        out = {}
+        for cr in (ctx.rspirv, ctx.spirv, ctx.dis):
+            for m in cr.modules():
+                for it in cr.items(m, "type"):
+                    if it.get("name") and it.get("ty"):
+                        out.setdefault(it["name"], set()).add(str(it["ty"]).replace(" ", ""))
+        return out
+    t = ctx.memo("type_aliases", build).get(name.split("::")[-1])
+    return next(iter(t)) if t and len(t) == 1 else None
 
 
 def _tuple_struct(p, self_ty=None):
